@@ -1,6 +1,7 @@
 """E3c obligations on the memory backend (shared by C06, C10, C18, C02, C08, C09)."""
-import itertools
+import itertools, os, re
 import z3
+from vlib.common import REPO as REPO_DIR
 
 from mirsym.api import Ob, guard, StatePath, Opaque, Agg, Ref, vname, ret_shape
 from mirsym.engine import State
@@ -447,4 +448,72 @@ def save_group_refusal(tier, oid='O6', prefix='O6'):
     ob.r.bounds = {'groups': '2 stored + 1 new', 'nostr ids': 'pool of 3 (own, other group\'s, fresh)', 'record payload': 'symbolic'}
     ob.r.assumptions += ASSUMPTIONS
     ob.r.vacuity.append(f'{total} paths: {n_err} refused, {n_ok} accepted')
+    return ob.done(cases=total)
+
+
+WELCOME_FIELDS = ['id', 'event', 'mls_group_id', 'nostr_group_id', 'group_name', 'group_description', 'group_image_hash', 'group_image_key', 'group_image_nonce',
+                  'group_admin_pubkeys', 'group_relays', 'welcomer', 'member_count', 'state', 'wrapper_event_id']
+
+
+def welcome(tag):
+    f = {n: Opaque(f'{tag}_{n}', '?') for n in WELCOME_FIELDS}
+    f['id'] = eid(z3.BitVec(f'{tag}_id', 256))
+    f['state'] = Opaque(f'{tag}_state', 'mdk_storage_traits::welcomes::types::WelcomeState')
+    f['wrapper_event_id'] = eid(z3.BitVec(f'{tag}_w', 256))
+    return Agg('struct', 'mdk_storage_traits::welcomes::types::Welcome', None, [f[n] for n in WELCOME_FIELDS], list(WELCOME_FIELDS))
+
+
+@guard
+def pending_welcomes_listing(tier, oid='O10', prefix='O10'):
+    """memory pending_welcomes(): the page is positions [min(o,n), min(o+l,n)) of the PENDING welcomes in descending id order (filter first, then sort, then paginate)"""
+    NMAX = 2 if tier == 'quick' else 3
+    ob = Ob(oid, f'memory backend pending_welcomes(): for 0..{NMAX} stored welcomes in arbitrary states with symbolic ids, ALL usize limits and offsets: no panic; limit outside 1..=MAX refused, '
+                 'inside accepted; the page is exactly positions [min(o,n), min(o+l,n)) of the PENDING welcomes in descending id order (as SQLite: WHERE state = pending ORDER BY id DESC LIMIT/OFFSET)',
+            crates=CRATES, inline={'limit', 'offset', 'default'}, loop_bound=10, max_paths=400000)
+    f = ob.prog.find(MEM, 'welcomes::pending_welcomes')
+    src = open(os.path.join(REPO_DIR, 'crates', 'mdk-storage-traits', 'src', 'welcomes', 'mod.rs')).read()
+    mm = re.search(r'MAX_PENDING_WELCOMES_LIMIT\s*:\s*usize\s*=\s*([\d_]+)', src)
+    MAXW = int(mm.group(1).replace('_', '')) if mm else 1000
+    pend = ob.prog.cat.discr_values('WelcomeState', 'mdk_storage_traits::welcomes::types')['Pending']
+    total = n_ok = n_filtered = 0
+    for n in range(NMAX + 1):
+        st = State()
+        ws = [welcome(f'w{i}') for i in range(n)]
+        for a, b in itertools.combinations(ws, 2):
+            st.pc.append(a.fields[0].fields[0] != b.fields[0].fields[0])
+        sref = storage(st, {'welcomes_cache': MapV([[w.fields[0], w] for w in ws], 'LruCache')})
+        lim, off = z3.BitVec('limit', 64), z3.BitVec('offset', 64)
+        pag = M.SOME(Agg('struct', 'mdk_storage_traits::groups::Pagination', None, [M.SOME(lim), M.SOME(off), Opaque('sort', 'std::option::Option<mdk_storage_traits::groups::MessageSortOrder>')]))
+        for p in ob.explore(f, [sref, pag], st):
+            total += 1
+            if p.kind == 'panic':
+                ob.require(False, f'{prefix}/memory-pending-welcomes-panic', f'pending_welcomes panics: {p.msg}', p); continue
+            valid = z3.And(z3.UGE(lim, 1), z3.ULE(lim, MAXW))
+            if vname(p.ret) == 'Err':
+                ob.prove(p, z3.Not(valid), f'{prefix}/memory-pending-valid-limit-refused', f'memory pending_welcomes() refuses a limit inside 1..={MAXW}'); continue
+            n_ok += 1
+            res = p.ret.fields[0]
+            if not ob.require(isinstance(res, SeqV), f'{prefix}/memory-pending-result-shape', 'result is not a list', p):
+                continue
+            pflags = [w.fields[WELCOME_FIELDS.index('state')].discriminant() == pend for w in ws]
+            npend = z3.Sum([z3.If(c, 1, 0) for c in pflags]) if pflags else z3.IntVal(0)
+            o_, l_ = z3.BV2Int(off), z3.BV2Int(lim)
+            start = z3.If(o_ < npend, o_, npend)
+            end = z3.If(o_ + l_ < npend, o_ + l_, npend)
+            claims = [(valid, f'{prefix}/memory-pending-invalid-limit-accepted', f'memory pending_welcomes() accepts a limit outside 1..={MAXW}'),
+                      (z3.IntVal(len(res.items)) == end - start, f'{prefix}/memory-pending-page-size',
+                       f'page holds {len(res.items)} welcome(s) but positions [min(o,n), min(o+l,n)) of the pending ones hold a different number ({n} stored)')]
+            for i, x in enumerate(res.items):
+                xid = x.fields[0].fields[0]
+                same = [xid == w.fields[0].fields[0] for w in ws]
+                claims.append((z3.Or([z3.And(s_, c) for s_, c in zip(same, pflags)]) if ws else z3.BoolVal(False), f'{prefix}/memory-pending-foreign-element', 'the page contains a welcome that is not pending (or not stored)'))
+                rank = z3.Sum([z3.If(z3.And(c, z3.UGT(w.fields[0].fields[0], xid)), 1, 0) for w, c in zip(ws, pflags)])
+                claims.append((rank == start + i, f'{prefix}/memory-pending-page-content', f'position {i} of the page is not element min(o,n)+{i} of the pending welcomes in descending id order'))
+            if n and any(not ob.eng.prove(p, c)[0] for c in pflags):
+                n_filtered += 1
+            ob.prove_all(p, claims)
+    ob.require(n_ok >= 3 and n_filtered >= 1, f'{prefix}/vacuity', f'ok paths {n_ok}, with a non-pending welcome {n_filtered}')
+    ob.r.bounds = {'stored welcomes': f'0..{NMAX} in arbitrary states', 'limit / offset': 'all usize', 'ids': 'all distinct 256-bit values'}
+    ob.r.assumptions += ASSUMPTIONS
+    ob.r.vacuity.append(f'{total} paths, {n_ok} listings, {n_filtered} with a possibly non-pending welcome')
     return ob.done(cases=total)
